@@ -21,6 +21,7 @@ BASE_STUBS_CANDID = [
     "std::rc::Rc::drop_slow",
 ]
 BASE_STUBS_PARSER = [
+    "crate::Error::msg",
     "alloc::fmt::format",
     "<::anyhow::Error as std::ops::Drop>::drop",
 ]
@@ -217,7 +218,7 @@ RT = [("bool", "all bool"), ("u8", "all u8"), ("u16", "all u16"), ("u32", "all u
       ("vec_string_1", "Vec<String> of one 2-byte string")]
 RT += [("vec_box_u64_1", "all Vec<Box<u64>> of 1 element (wrapper element type)"),
        ("vec_box_u32_2", "all Vec<Box<u32>> of 2 elements (wrapper element type)")]
-RT_QUICK = {"vec_box_u64_1", "bool", "u16", "i64", "f64", "string2", "opt_u8", "tuple_u8_i32", "vec_u16_2", "vec_bool_2", "vec_opt_u8_2"}
+RT_QUICK = {"bool", "u16", "i64", "f64", "string2", "opt_u8", "tuple_u8_i32", "vec_u16_2", "vec_bool_2", "vec_opt_u8_2"}
 for n, d in RT:
     add(["C01", "C03"], f"c01_rt_{n}", "candid", "de_rt", d, RT_WHAT, quick=n in RT_QUICK, est_s=90, cbmc_args=MEMCMP_)
 
@@ -228,7 +229,7 @@ OPT_WHAT = ("Option<T>::deserialize vs the spec's opt coercion (reference decode
             "opt W' flag 0 -> None; flag 1 or plain W: value read, Some(v) iff W <: T else None (value skipped through "
             "deserialize_ignored_any/deserialize_any); malformed bytes or bad flag -> Err even below opt; exact bytes "
             "consumed; skipped data charged to the skipping quota; option never free; no panic; cursor <= len")
-QUICK_OPT = {"c08_opt_u8_w_nat8", "c08_opt_u8_w_bool", "c08_opt_u8_wo_bool", "c08_opt_u8_wo_nat8", "c08_opt_u8_wo_text",
+QUICK_OPT = {"c08_opt_u8_w_nat8", "c08_opt_u8_w_bool", "c08_opt_u8_wo_bool", "c08_opt_u8_wo_nat8", "c08_opt_u8_wo_nat16",
              "c08_opt_u8_w_reserved", "c08_opt_bool_wo_bool", "c08_opt_u8_wo_int"}
 for under, tag in ((False, "w"), (True, "wo")):
     for p in PRIMS:
@@ -271,6 +272,15 @@ add(["C06", "C07"], "c06_vec_null_bomb", "candid", "de_fast",
     "vec null with a symbolic length prefix (10 symbolic bytes), decoding quota symbolic <= 20",
     "zero-sized elements are not free: a successful decode materialised at most quota elements; space bombs are stopped",
     est_s=200, cap_s=2400, cbmc_args=MEMCMP)
+TUP_WHAT = ("Rust tuple at a positional record vs the spec's record coercion (reference in the harness): surplus wire fields dropped "
+            "AND their bytes consumed, missing optional field -> None, mismatching optional field -> None (value skipped), "
+            "missing/ill-typed required field -> Err; exact value and consumption; no panic")
+# (the (u8,Option<u8>) shapes of de_tuple.rs ran out of memory at 20 GB and are not registered)
+for n, d, q in (("surplus", "(u8,bool), wire record{0:nat8;1:bool;2:nat16}", True),
+                ("missing_required", "(u8,bool), wire record{0:nat8}", False)):
+    add(["C08", "C06", "C07"], f"c08_tuple_{n}", "candid", "de_tuple", d + "; all value bytes; symbolic quotas", TUP_WHAT, quick=q,
+        est_s=700, cap_s=3000, mem_gb=28, cbmc_args=MEMCMP)
+
 # Struct-visitor harnesses (c08_struct_*, c15_struct_symbolic_id; source in de_struct.rs) are NOT registered:
 # a derive(Deserialize) struct {a:u8,b:Option<u8>} ran out of memory (12-20 GB, 17-29 min) for every wire shape.
 # Map-style harnesses (c08_map_*) are NOT registered: Kani 0.68 mis-projects the tuple fields of
@@ -288,7 +298,7 @@ Q3_WHAT = ("three decoder runs on the same symbolic bytes: unmetered / quotas (d
            "value and cursor as unmetered; success monotone in both quotas; compute_cost equal in both metered runs; cost >= "
            "values materialised or skipped; cost <= documented model (+ small constant, 50x for skipped data); a decode never "
            "succeeds with a quota below its own cost; an honest message is rejected only if a quota is below the measured cost")
-for n, d, q in (("u32", "u32 at nat32, 4 bytes", True), ("str", "&str at text, 3 bytes", True),
+for n, d, q in (("u32", "u32 at nat32, 4 bytes", True), ("str", "&str at text, 3 bytes", False),
                 ("opt_same", "Option<u8>, wire opt nat8, 2 bytes", False),
                 ("opt_skip", "Option<u8>, wire opt bool (back-tracking, skipped payload, 50x penalty), 2 bytes", False),
                 ("plain_skip", "Option<u8>, wire nat16 (skipped), 2 bytes", False)):
@@ -297,10 +307,12 @@ for n, d, q in (("u32", "u32 at nat32, 4 bytes", True), ("str", "&str at text, 3
 
 # ---------------------------------------------------------------------------
 # C20 (kernel claim)
-for t in ("u8", "i8", "u16", "i32", "u64", "i64", "i128", "u128"):
-    add("C20", f"c20_num_{t}", "parser", "", f"all configured ranges Option<(i64,i64)> x all 16-byte entropy strings, T = {t}",
+# (wider instances u16..u128 found the inverted-range panic on the pinned tree in 30-50 s each, but cannot be *proved*
+#  after the fix: symbolic 64-bit modulus; they are not registered)
+for t in ("u8", "i8"):
+    add("C20", f"c20_num_{t}", "parser", "", f"configured ranges None | Some((l,r)) with |l|,|r| <= 300 x all 16-byte entropy strings, T = {t}",
         "random::arbitrary_num::<T>: Err or a value inside T and inside the range clamped to T; no panic for any range "
-        "(incl. l > r)", quick=t in ("u8", "i8"), est_s=600, cap_s=2400)
+        "(incl. l > r and bounds outside T)", est_s=300, cap_s=2400)
 # c20_variant_w{0..3} (arbitrary_variant) are not registered: no answer within 600 s / 15 GB even for the empty slice.
 add("C20", "c20_len_width", "parser", "", "width Option<usize> symbolic, 8 entropy bytes",
     "random::arbitrary_len: Ok(n) => n <= width (or <= available entropy); no panic", est_s=60)
